@@ -11,6 +11,8 @@ import (
 	"time"
 
 	"github.com/relab/gorums"
+	cfgtest "github.com/relab/gorums/tests/config"
+	onewaytest "github.com/relab/gorums/tests/oneway"
 	"google.golang.org/grpc"
 	"google.golang.org/grpc/backoff"
 	"google.golang.org/grpc/credentials/insecure"
@@ -140,9 +142,14 @@ func IsCorr(kind string) bool   { return len(kind) >= 4 && kind[:4] == "Corr" }
 func IsAsync(kind string) bool  { return len(kind) >= 5 && kind[:5] == "Async" }
 func IsQC(kind string) bool     { return len(kind) >= 2 && kind[:2] == "QC" }
 func IsOneWay(kind string) bool {
-	return kind == "Multicast" || kind == "MulticastPerNode" || kind == "Unicast"
+	return kind == "Multicast" || kind == "MulticastPerNode" || kind == "Unicast" || kind == "UnhandledUnicast"
 }
-func IsNodeCall(kind string) bool { return kind == "RPC" || kind == "Unicast" }
+func IsNodeCall(kind string) bool { return kind == "RPC" || kind == "Unicast" || IsUnhandled(kind) }
+
+// IsUnhandled: calls (through the raw node API) of methods of another service that the
+// codec knows on both sides but for which the puppet servers register no handler. The
+// server skips such requests silently: a two-way call ends by its context only.
+func IsUnhandled(kind string) bool { return kind == "UnhandledRPC" || kind == "UnhandledUnicast" }
 func HasPerNode(kind string) bool {
 	switch kind {
 	case "QCPerNode", "QCCombo", "AsyncPerNode", "AsyncCombo", "CorrPerNode", "CorrCombo", "CorrStreamPerNode", "CorrStreamCombo", "MulticastPerNode":
@@ -555,6 +562,12 @@ func (call *Call) Issue() {
 		call.finish(outcomeOf(err), v, err)
 	case "Unicast":
 		c.Node(spec.Node).Unicast(ctx, call.Req, opts...)
+		call.finish("none", nil, nil)
+	case "UnhandledRPC":
+		_, err := c.Node(spec.Node).RawNode.RPCCall(ctx, gorums.CallData{Message: &cfgtest.Request{Num: call.Token}, Method: "config.ConfigTest.Config"})
+		call.finish(outcomeOf(err), nil, err)
+	case "UnhandledUnicast":
+		c.Node(spec.Node).RawNode.Unicast(ctx, gorums.CallData{Message: &onewaytest.Request{Num: call.Token}, Method: "oneway.OnewayTest.Unicast"}, opts...)
 		call.finish("none", nil, nil)
 	case "Multicast":
 		cfg.Multicast(ctx, call.Req, opts...)
